@@ -45,6 +45,9 @@ type Exec struct {
 	inlineDepth  int
 	inlinedFuncs []string
 	bePaths      []*bePath
+	localDecls   []types.Object    // variables declared in the function, in source order
+	localOrd     map[types.Object]int
+	usedLocals   map[string]int    // spec identifier -> declaration ordinal (recorded for rename robustness)
 	anonGoroutines []string
 }
 
